@@ -20,7 +20,10 @@ from common import *
 IMPORTS = ("From CV Require Import Base.Cmp Base.QcLin Model.C18_PDE.\n"
            "From Coq Require Import QArith Qcanon ZArith.")
 RULE = ("PDE instances with <=6 nodes and <=6 time levels (quick) / <=7 (thorough): every (method x time grid kind x solver kind "
-        "x grid_obs relation x time_obs form x observation map) cell of the lattice below gets cases; values inside cells are "
+        "x grid_obs relation x time_obs form x observation map) cell of the lattice below gets cases; plus grid SCALE 2^-40..2^20 x grid "
+        "PERTURBATION (relative 2^-10/-20/-30, absolute 2^-30/-40, same values in another array / dtype) x time-of-observation perturbation "
+        "(T - span*2^-20/-31/-40, time scales 2^-30..2^10) on exactly polynomial discrete solutions (branch = DECISION vs exact grid equality, "
+        "values vs the exact polynomial, purely relative 1e-10); values inside cells are "
         "seeded. distinct = distinct (configuration, parameter, API path); trivial = single-level time grids and refused "
         "constructors")
 
@@ -304,18 +307,26 @@ def aslist(g):
     return None if g is None else np.array(g, dtype=float)
 
 
+def asgrid_obs(cfg):
+    """grid_obs as the array handed to the constructor: float64 by default, or the same values in another dtype"""
+    g = cfg["gobs"]
+    if g is None:
+        return None
+    return np.array(g, dtype=cfg.get("gobs_dtype") or float)
+
+
 def mk_td(cuqi, cfg, rec, form=None):
     tobs = cfg["tobs"]
     if isinstance(tobs, list):
         tobs = np.array(tobs, dtype=float) if cfg.get("tobs_as_array", True) else list(tobs)
     return cuqi.pde.TimeDependentLinearPDE(form or np_form(cfg["af"]), np.array(cfg["times"], dtype=float), time_obs=tobs,
-                                           method=cfg["method"], grid_sol=aslist(cfg["gsol"]), grid_obs=aslist(cfg["gobs"]),
+                                           method=cfg["method"], grid_sol=aslist(cfg["gsol"]), grid_obs=asgrid_obs(cfg),
                                            observation_map=pymap(cfg["omap"]), **mk_solver_args(cfg, rec))
 
 
 def mk_ss(cuqi, cfg, rec, form=None):
     return cuqi.pde.SteadyStateLinearPDE(form or np_form(cfg["af"], steady=True), grid_sol=aslist(cfg["gsol"]),
-                                         grid_obs=aslist(cfg["gobs"]), observation_map=pymap(cfg["omap"]),
+                                         grid_obs=asgrid_obs(cfg), observation_map=pymap(cfg["omap"]),
                                          **mk_solver_args(cfg, rec))
 
 
@@ -668,6 +679,103 @@ def oracle_ss(cfg, p, ob, assembled=True):
     return None
 
 
+# ---- exactly polynomial discrete solutions on scaled / perturbed grids: the exact answer of the observation is known ----
+def poly_eval(coef, xi):
+    return sum(Fr(c) * xi ** k for k, c in enumerate(coef))
+
+
+def grids_identical(gs, go):
+    return go is None or gs is None or (len(gs) == len(go) and all(frac(float(a)) == frac(float(b)) for a, b in zip(gs, go)))
+
+
+def rel_tol_close(a, E, tol):
+    """purely relative to the size of the expected array (no absolute part: scale independent)"""
+    a, E = np.asarray(a, dtype=float), np.asarray(E, dtype=float)
+    if a.shape != E.shape:
+        return False
+    m = float(np.max(np.abs(E))) if E.size else 0.0
+    return bool(np.all(np.abs(a - E) <= tol * m)) if E.size else True
+
+
+POLY_TOL = 1e-10
+
+
+def oracle_poly_ss(cfg, p, ob):
+    """steady cells whose nodal solution is q(x/s) + p_0 exactly, q quadratic: the observation is q(grid_obs/s) + p_0"""
+    P = cfg["poly"]
+    s = Fr(2) ** P["s_exp"]
+    gs, go = cfg["gsol"], cfg["gobs"] if cfg["gobs"] is not None else cfg["gsol"]
+    same = grids_identical(gs, go)
+    if ob["stage"] != "run" or ob["obs"][0] != "ok":
+        return ("observe() raised on a scaled/perturbed grid: %s" % (ob.get("err") or ob["obs"][1]), "SteadyStateLinearPDE.observe")
+    E = np.array([float(poly_eval(P["q"], frac(float(x)) / s) + frac(float(p[0]))) for x in go])
+    nodal = np.array([float(poly_eval(P["q"], frac(float(x)) / s) + frac(float(p[0]))) for x in gs])
+    o = np.asarray(ob["obs"][1], dtype=float)
+    what = "grid scale 2^%d, grid_obs = grid_sol %s" % (P["s_exp"], P["pert"])
+    if not rel_tol_close(o, E, POLY_TOL):
+        return ("%s: observe() = %s but the exactly quadratic solution at grid_obs is %s (max error %.3g; interpolation used: %s; nodal values %s)" % (
+            what, o.tolist()[:6], E.tolist()[:6], float(np.max(np.abs(o - E))) if o.shape == E.shape else float("nan"), ob["ninterp"] > 0, nodal.tolist()[:6]),
+            "SteadyStateLinearPDE.observe")
+    if not same and ob["ninterp"] == 0:
+        return ("%s: the grids differ (same length, max |difference| %.3g) but observe() did not interpolate: it returns the nodal values, off by %.3g from the "
+                "exact solution at grid_obs" % (what, max(abs(a - b) for a, b in zip(gs, go)), float(np.max(np.abs(nodal - E)))), "SteadyStateLinearPDE.observe")
+    if same and ob["ninterp"] > 0:
+        return ("%s: the grids coincide but observe() interpolated instead of restricting" % what, "SteadyStateLinearPDE.observe")
+    return None
+
+
+def oracle_poly_td(cfg, p, ob):
+    """time-dependent cells with u(x, t) = q1(x/s) + p_0 + (t - t0)/ts * q2(x/s) exactly (q1, q2 cubic): the observation at
+    (grid_obs, time_obs) is that polynomial"""
+    P = cfg["poly"]
+    s, ts = Fr(2) ** P["s_exp"], Fr(2) ** P["t_exp"]
+    times = cfg["times"]
+    gs, go = cfg["gsol"], cfg["gobs"] if cfg["gobs"] is not None else cfg["gsol"]
+    tob = cfg["tobs"]
+    tobs = [times[-1]] if isinstance(tob, str) else list(tob)
+    same = grids_identical(gs, go)
+    final = len(tobs) == 1 and frac(float(tobs[0])) == frac(float(times[-1]))
+    if ob["stage"] != "run" or ob["obs"][0] != "ok":
+        return ("observe() raised on a scaled/perturbed grid: %s" % (ob.get("err") or ob["obs"][1]), "TimeDependentLinearPDE.observe")
+    t0 = frac(float(times[0]))
+
+    def u(x, t):
+        xi = frac(float(x)) / s
+        return float(poly_eval(P["q1"], xi) + frac(float(p[0])) + (frac(float(t)) - t0) / ts * poly_eval(P["q2"], xi))
+    E = np.array([[u(x, t) for t in tobs] for x in go])
+    nodal = np.array([[u(x, times[-1])] for x in gs])
+    if len(tobs) == 1:
+        E = E[:, 0]
+        nodal = nodal[:, 0]
+    o = np.asarray(ob["obs"][1], dtype=float)
+    what = "grid scale 2^%d, time scale 2^%d, grid_obs = grid_sol %s, time_obs = %s" % (P["s_exp"], P["t_exp"], P["pert"], P["tpert"])
+    if not rel_tol_close(o, E, POLY_TOL):
+        return ("%s: observe() = %s but the exactly polynomial solution at (grid_obs, time_obs) is %s (max error %.3g; interpolation used: %s)" % (
+            what, o.ravel().tolist()[:6], E.ravel().tolist()[:6], float(np.max(np.abs(o - E))) if o.shape == E.shape else float("nan"), ob["ninterp"] > 0),
+            "TimeDependentLinearPDE.observe")
+    if not (same and final) and ob["ninterp"] == 0:
+        return ("%s: grid_obs differs from grid_sol or time_obs from the final time (max |grid difference| %.3g, |T - time_obs| %.3g) but observe() did not "
+                "interpolate: it returns the final nodal values, off by %.3g from the exact solution there" % (
+                    what, max([abs(a - b) for a, b in zip(gs, go)] + [0.0]), abs(times[-1] - tobs[-1]),
+                    float(np.max(np.abs(nodal - E))) if nodal.shape == E.shape else float("nan")), "TimeDependentLinearPDE.observe")
+    if same and final and ob["ninterp"] > 0:
+        return ("%s: grids and final time coincide but observe() interpolated instead of restricting" % what, "TimeDependentLinearPDE.observe")
+    return None
+
+
+_oracle_td_std, _oracle_ss_std = oracle_td, oracle_ss
+
+
+def oracle_td(cfg, p, ob, q):
+    f = _oracle_td_std(cfg, p, ob, q)
+    return f or (oracle_poly_td(cfg, p, ob) if "poly" in cfg else None)
+
+
+def oracle_ss(cfg, p, ob, assembled=True):
+    f = _oracle_ss_std(cfg, p, ob, assembled)
+    return f or (oracle_poly_ss(cfg, p, ob) if ("poly" in cfg and assembled) else None)
+
+
 # ------------------------------------------------------------------------------------------------
 # exactness guard: may the floats of a correct implementation be compared bit-for-bit with the model?
 # ------------------------------------------------------------------------------------------------
@@ -901,6 +1009,94 @@ def well_conditioned(cfg, p):
         return True
     except Exception:
         return False
+
+
+# ---- grid scale x grid perturbation (same length, different positions / same values in another array or dtype) ----
+SCALES = [-40, -30, -20, -10, 0, 10, 20]
+PERTS = [("rel", 10, "all"), ("rel", 20, "all"), ("rel", 30, "all"), ("rel", 20, "one"), ("rel", 30, "one"), ("abs", 30, "all"), ("abs", 40, "all"),
+         ("copy",), ("float32",), ("int",)]
+TSCALES = [-30, -10, 0, 10]
+TPERTS = [20, 31, 40]
+
+
+def pert_name(pt):
+    return "-".join(str(x) for x in pt)
+
+
+def scaled_grids(n, h, s_exp, pt):
+    """grid_sol = 2^s_exp * (1, 1+h, ...); grid_obs per perturbation kind; None if the perturbation is not representable/inside"""
+    s = 2.0 ** s_exp
+    gs = [s * (1 + i * h) for i in range(n)]
+    dtype = None
+    if pt[0] == "copy":
+        go = list(gs)
+    elif pt[0] == "float32":
+        go, dtype = list(gs), "float32"
+    elif pt[0] == "int":
+        if s_exp < 0 or h != 1:
+            go, dtype = list(gs), "float32"
+        else:
+            go, dtype = list(gs), "int64"
+    else:
+        go = list(gs)
+        idx = range(n) if pt[2] == "all" else [n // 2]
+        for i in idx:
+            d = gs[i] * 2.0 ** -pt[1] if pt[0] == "rel" else 2.0 ** -pt[1]
+            go[i] = gs[i] - d if i == n - 1 else gs[i] + d
+        if any(not (gs[0] <= v <= gs[-1]) for v in go) or any(b <= a for a, b in zip(go, go[1:])) or go == gs:
+            return None
+        if max(abs(a - b) for a, b in zip(gs, go)) > 0.25 * s * h:
+            return None
+    return gs, go, dtype
+
+
+def poly_ss_cfg(rng, n, s_exp, pt, solver):
+    h = rng.choice([1, 0.5])
+    g = scaled_grids(n, h, s_exp, pt)
+    if g is None:
+        return None
+    gs, go, dtype = g
+    q = [rng.randint(-3, 3), rng.randint(-3, 3), rng.choice([-2, -1, 1, 2])]
+    xi = [Fr(1) + Fr(h) * i for i in range(n)]
+    I = [[1 if i == j else 0 for j in range(n)] for i in range(n)]
+    Z = [[0] * n for _ in range(n)]
+    af = {"A0": I, "At": Z, "Ap": [], "b0": [float(poly_eval(q, x)) for x in xi], "bt": [0] * n, "Bp": [[1]] * n, "c0": [0] * n, "ct": [0] * n,
+          "Cp": [[0]] * n}
+    return {"steady": True, "af": af, "solver": solver, "tag": 3, "gsol": gs, "gobs": go, "gobs_dtype": dtype, "omap": ["none"],
+            "poly": {"s_exp": s_exp, "q": q, "pert": pert_name(pt)}}
+
+
+def poly_td_cfg(rng, n, nt, s_exp, t_exp, pt, tp, method, solver):
+    """A = 0, source q2(x/s)/ts constant in time, initial condition q1(x/s) + p_0: both Euler methods give
+    u(x, t) = q1 + p_0 + (t - t0)/ts q2 exactly"""
+    h = rng.choice([1, 0.5])
+    g = scaled_grids(n, h, s_exp, pt)
+    if g is None:
+        return None
+    gs, go, dtype = g
+    ts = 2.0 ** t_exp
+    dts = [rng.choice([0.25, 0.5, 0.125]) for _ in range(nt - 1)]
+    times = [0.0]
+    for d in dts:
+        times.append(times[-1] + d)
+    times = [ts * t for t in times]
+    T, span = times[-1], times[-1] - times[0]
+    if tp is None:
+        tobs, tname = "final", "final"
+    elif tp == "two":
+        tobs, tname = [(times[1] + times[2]) / 2, T], "[mid, T]"
+    else:
+        tobs, tname = [T - span * 2.0 ** -tp], "[T - span*2^-%d]" % tp
+        if tobs[0] == T:
+            return None
+    q1 = [rng.randint(-3, 3), rng.randint(-2, 2), rng.randint(-2, 2), rng.choice([-1, 1])]
+    q2 = [rng.randint(-3, 3), rng.randint(-2, 2), rng.choice([-1, 0, 1]), rng.choice([-1, 1])]
+    xi = [Fr(1) + Fr(h) * i for i in range(n)]
+    Z = [[0] * n for _ in range(n)]
+    af = {"A0": Z, "At": Z, "Ap": [], "b0": [float(poly_eval(q2, x) / Fr(ts)) for x in xi], "bt": [0] * n, "Bp": [[0]] * n,
+          "c0": [float(poly_eval(q1, x)) for x in xi], "ct": [0] * n, "Cp": [[1]] * n}
+    return {"af": af, "times": times, "method": method, "solver": solver, "tag": 3, "gsol": gs, "gobs": go, "gobs_dtype": dtype, "tobs": tobs,
+            "omap": ["none"], "poly": {"s_exp": s_exp, "t_exp": t_exp, "q1": q1, "q2": q2, "pert": pert_name(pt), "tpert": tname}}
 
 
 # ------------------------------------------------------------------------------------------------
@@ -1483,6 +1679,52 @@ def run(ctx):
         p = gen_p(rng, 2)
         cases.add("ss/not-assembled", "ss_direct", lambda: case_ss_direct(cuqi, cfg, p, "ss/not-assembled", assembled=False), cfg=cfg, p=p, assembled=False)
 
+    # ---- 5b. grid SCALE x grid PERTURBATION x time perturbation on exactly polynomial solutions (branch = DECISION, values vs exact) ----
+    k = 0
+    for _ in range(reps if not ctx.thorough else 3):
+        for s_exp in SCALES:
+            for pt in PERTS:
+                k += 1
+                n = rng.randint(4, nmax)
+                cfg = poly_ss_cfg(rng, n, s_exp, pt, ["default", "fake", "real_tuple"][k % 3])
+                if cfg is not None:
+                    p = [rng.choice([0.0, 1.0, -2.0, 0.5])]
+                    cell = "ss/scale-pert/%s" % pert_name(pt)
+                    cases.add(cell, "ss_direct", lambda: case_ss_direct(cuqi, cfg, p, cell), cfg=cfg, p=p, assembled=True)
+                    if k % 3 == 0:
+                        a, d = rng.choice([(1, 0), (2, 1)])
+                        plist = [p, [rng.choice([1.0, -1.0, 2.0])]]
+                        cell = "ss/scale-pert-forward/%s" % pert_name(pt)
+                        cases.add(cell, "ss_forward", lambda: cases_ss_forward(cuqi, cfg, plist, a, d, cell), cfg=cfg, plist=plist, a=a, d=d)
+                method, sk = [("forward_euler", "default"), ("backward_euler", "default"), ("backward_euler", "fake")][k % 3]
+                cfg = poly_td_cfg(rng, rng.randint(4, nmax), rng.randint(4, nmax), s_exp, TSCALES[k % len(TSCALES)], pt, None if k % 4 else "two", method, sk)
+                if cfg is not None:
+                    p = [rng.choice([0.0, 1.0, -2.0, 0.5])]
+                    cell = "td/scale-pert/%s" % pert_name(pt)
+                    cases.add(cell, "td_direct", lambda: case_td_direct(cuqi, cfg, p, q, cell), cfg=cfg, p=p)
+                    if k % 3 == 1:
+                        a, d = rng.choice([(1, 0), (2, 1)])
+                        plist = [p, [rng.choice([1.0, -1.0, 2.0])]]
+                        cell = "td/scale-pert-forward/%s" % pert_name(pt)
+                        cases.add(cell, "td_forward", lambda: cases_td_forward(cuqi, cfg, plist, a, d, q, cell), cfg=cfg, plist=plist, a=a, d=d)
+        for t_exp in TSCALES:
+            for tp in TPERTS:
+                for pt in [("copy",), ("float32",), ("rel", 30, "one")]:
+                    k += 1
+                    method, sk = [("forward_euler", "default"), ("backward_euler", "default"), ("backward_euler", "fake")][k % 3]
+                    cfg = poly_td_cfg(rng, rng.randint(4, nmax), rng.randint(4, nmax), SCALES[k % len(SCALES)], t_exp, pt, tp, method, sk)
+                    if cfg is None:
+                        continue
+                    if pt[0] == "copy" and k % 2:
+                        cfg["gobs"] = None
+                    p = [rng.choice([0.0, 1.0, -2.0, 0.5])]
+                    cell = "td/time-pert/2^-%d/%s" % (tp, pert_name(pt))
+                    cases.add(cell, "td_direct", lambda: case_td_direct(cuqi, cfg, p, q, cell), cfg=cfg, p=p)
+                    if k % 3 == 0:
+                        plist = [p, [rng.choice([1.0, -1.0, 2.0])]]
+                        cell = "td/time-pert-forward/2^-%d/%s" % (tp, pert_name(pt))
+                        cases.add(cell, "td_forward", lambda: cases_td_forward(cuqi, cfg, plist, 1, 0, q, cell), cfg=cfg, plist=plist, a=1, d=0)
+
     # ---- 6. grids bookkeeping, gradient dispatch, shipped test problems ---------------------------------------------------
     for _ in range(ctx.n(40, 400)):
         cases.add("grids/setters", "grids", lambda: case_grids(cuqi, rng, rng.randint(3, 5)))
@@ -1498,7 +1740,7 @@ def run(ctx):
                                "the law A x = b is checked on every entry to 1e-9 per component",
                                "scipy.interpolate.interp1d(kind='quadratic') / RectBivariateSpline enter the model as the table of the call they answered; "
                                "node-exactness is checked on every entry; the oracle compares with an independent B-spline interpolation to 1e-7",
-                               "floating rounding is not modelled: cases whose exact arithmetic stays dyadic with denominator <= 2^24 and magnitude < 2^20 are compared bit-for-bit, the others within 1e-9/1e-12"])
+                               "floating rounding is not modelled: cases whose exact arithmetic stays dyadic with denominator <= 2^24 and magnitude < 2^20 are compared bit-for-bit, the others within 1e-9/1e-12 relative to 1+|value| (solution values are O(1)..O(100) by construction; grids and times are always compared exactly, never within a tolerance)"])
 
 
 # ------------------------------------------------------------------------------------------------
